@@ -731,3 +731,83 @@ func c06HostsLines(pick func(n int) int, table []c06Entry, names []string) (line
 
 	return lines
 }
+
+// c06HandEditedYAML renders the table as the `rewrites` list of a
+// configuration file that somebody has edited by hand: between the real
+// items there are empty ones (a dangling dash, `- null`, `- ~`), at the
+// start, in the middle, at the end, several in a row, and other things YAML
+// admits for a list item that cannot concern any queried name: an empty
+// mapping, an item with only an answer, an item with only a domain (a domain
+// no query and no CNAME target of the monitor ever uses).  It returns the
+// text and the kinds of odd items it put in.
+func c06HandEditedYAML(pick func(n int) int, table []c06Entry) (text, kinds string) {
+	q := func(v string) string { return "'" + strings.ReplaceAll(v, "'", "''") + "'" }
+	var b strings.Builder
+	b.WriteString("rewrites:\n")
+	seen := map[string]bool{}
+	odd := func() {
+		switch w := pick(100); {
+		case w < 40:
+			b.WriteString("  -\n")
+			seen["nil-item"] = true
+		case w < 55:
+			b.WriteString("  - null\n")
+			seen["nil-item"] = true
+		case w < 62:
+			b.WriteString("  - ~\n")
+			seen["nil-item"] = true
+		case w < 75:
+			b.WriteString("  - {}\n")
+			seen["empty-mapping"] = true
+		case w < 88:
+			b.WriteString("  - answer: " + q([]string{"10.8.8.8", "fd88::8", "a.example.org", "A"}[pick(4)]) + "\n")
+			seen["only-answer"] = true
+		default:
+			b.WriteString("  - domain: " + q([]string{"unused.invalid", "*.unused.invalid"}[pick(2)]) + "\n")
+			seen["only-domain"] = true
+		}
+	}
+	// Positions: 0 = before the first item ... len = after the last one.
+	mode := pick(4)
+	for i := 0; i <= len(table); i++ {
+		n := 0
+		switch {
+		case mode == 0 && i == 0, mode == 1 && i == len(table), mode == 2 && i == (len(table)+1)/2:
+			n = 1 + pick(3)
+		case mode == 3 && pick(100) < 35:
+			n = 1 + pick(2)
+		}
+		if mode == 3 && i == len(table) && len(seen) == 0 {
+			n = 1
+		}
+		for ; n > 0; n-- {
+			odd()
+		}
+		if i < len(table) {
+			b.WriteString("  - domain: " + q(table[i].Domain) + "\n    answer: " + q(table[i].Answer) + "\n")
+		}
+	}
+	var ks []string
+	for _, k := range []string{"nil-item", "empty-mapping", "only-answer", "only-domain"} {
+		if seen[k] {
+			ks = append(ks, k)
+		}
+	}
+
+	return b.String(), strings.Join(ks, "+")
+}
+
+// c06LoadYAML loads the filtering section text the way a start-up does:
+// yaml.Unmarshal into a Config, then filtering.New.  perr is a YAML error
+// (the monitor's text is wrong), nerr the refusal of New.
+func c06LoadYAML(text, dataDir string) (d *DNSFilter, items int, perr, nerr error) {
+	nc := &Config{}
+	if perr = yaml.Unmarshal([]byte(text), nc); perr != nil {
+		return nil, 0, perr, nil
+	}
+	items = len(nc.Rewrites)
+	nc.DataDir = dataDir
+	d, nerr = New(nc, nil)
+
+	return d, items, nil, nerr
+}
